@@ -54,7 +54,8 @@ def run(ctx):
         nids = rin["n"]
     with open(vec, "w") as fh:
         for s in seqs:
-            fh.write(json.dumps({"n": nids, "calls": s}) + "\n")
+            # tl = -1: the driver cycles through its three monotone timelines
+            fh.write(json.dumps({"n": nids, "calls": s, "tl": rin["tl"] if rin is not None else -1}) + "\n")
     vlib.log("GEN transition cover: %d edges over %d states -> %d call sequences" % (len(edges), nstates, len(seqs)))
     h = ctx.harness("stun")
     trace = ctx.path("c13.ndjson")
@@ -70,7 +71,7 @@ def run(ctx):
     def input_of(rj):
         tl = bytr[rj["trace_line"]["tr"]]
         calls = [{k: c[k] for k in ("op", "id", "d", "t", "h")} for c in tl if c["k"] == "call"]
-        return {"n": tl[0]["n"], "calls": calls}
+        return {"n": tl[0]["n"], "calls": calls, "tl": tl[0].get("tl", 0)}
     ctx.input_of = input_of
     files = ctx.shard(trace, vlib.NCPU, group_key="tr")
     ctx.validate("AgentTrace", files)
